@@ -125,14 +125,28 @@ func (p *Proposal) PendingMessage() *PendingMessage {
 }
 
 func (p *Proposal) Message() (*Message, error) {
-	buf := bytes.NewBuffer(p.Data())
+	data, err := p.decompress()
+	if err != nil {
+		return nil, err
+	}
+
 	m := new(Message)
-	err := m.ReadFrom(buf)
+	err = m.ReadFrom(bytes.NewBuffer(data))
 	return m, err
 }
 
 // Data returns the decompressed raw message
 func (p *Proposal) Data() []byte {
+	data, err := p.decompress()
+	if err != nil {
+		panic(err) //TODO: Should return error
+	}
+	return data
+}
+
+// decompress returns the decompressed raw message, or an error if the compressed
+// data is corrupt (including a checksum or size mismatch).
+func (p *Proposal) decompress() ([]byte, error) {
 	var r io.ReadCloser
 	var err error
 
@@ -144,15 +158,20 @@ func (p *Proposal) Data() []byte {
 	}
 
 	if err != nil {
-		panic(err) //TODO: Should return error
+		return nil, err
 	}
 
 	var buf bytes.Buffer
 	if _, err := io.Copy(&buf, r); err != nil {
-		panic(err) //TODO
+		return nil, err
 	}
 
-	return buf.Bytes()
+	// The checksum and size is verified on Close
+	if err := r.Close(); err != nil {
+		return nil, err
+	}
+
+	return buf.Bytes(), nil
 }
 
 func parseProposal(line string, prop *Proposal) (err error) {
